@@ -217,10 +217,17 @@ pub fn check_outcomes(w: &WorldInner, a: &Analysis, run: &RunResult, tcfg: &Trac
                         Expected::Awaited => "Awaited",
                         Expected::Complete(_) => "Complete",
                     };
-                    let detail = match exp {
+                    let mut detail = match exp {
                         Expected::Complete(r) => format!("genuine {:?} from {} for wire {:?} was read at t={} (pkt {:?}, class {:?})", r.kind, r.src, r.wire, r.t, r.pkt, r.class),
                         _ => format!("dispatch {:?} wire {:?}", g.failed, g.wire),
                     };
+                    // which packet did the tracer take for it?
+                    if let ProbeStatus::Complete(c) = st {
+                        let rcv = crate::sim::st_ns(c.received);
+                        if let Some(rd) = rt.reads.iter().find(|r| r.t <= rcv && rcv <= r.t_next) {
+                            detail.push_str(&format!("; completed by the packet read at t={} from {}: class {:?}, kind {:?}, answering wire {:?}", rd.t, rd.src, rd.class, rd.kind, rd.wire));
+                        }
+                    }
                     o.violate(
                         "status_matches_ground_truth",
                         format!("{site}|expected {en} got {}", status_name(st)),
